@@ -54,7 +54,7 @@ func (e *Explorer) Run() {
 	if e.seenPost == nil {
 		e.seenPost = map[string]bool{}
 	}
-	e.dfs(nil)
+	e.dfs(append([]string{}, e.Spec.Prefix...))
 }
 
 func (e *Explorer) dfs(path []string) {
@@ -69,8 +69,9 @@ func (e *Explorer) dfs(path []string) {
 	}
 	// Ownership: whole subtrees below depth shardAt are distributed round-robin; the few
 	// nodes above are executed by every shard (to learn the menus) but judged by one.
+	rel := len(path) - len(s.Prefix) // depth of the explored suffix
 	owned := true
-	if len(path) < shardAt {
+	if rel < shardAt {
 		e.node++
 		owned = e.Shard.Owns(e.node)
 	}
@@ -102,12 +103,12 @@ func (e *Explorer) dfs(path []string) {
 			vr.Fatalf("%s: path %v: %v", s.Name, path, err)
 		}
 	}
-	if res == nil || !res.Valid || len(path) >= s.Depth {
+	if res == nil || !res.Valid || rel >= s.Depth {
 		return
 	}
 	for _, op := range res.Children {
 		child := append(append([]string{}, path...), op)
-		if len(child) == shardAt {
+		if len(child)-len(s.Prefix) == shardAt {
 			e.subtree++
 			if !e.Shard.Owns(e.subtree) {
 				continue
